@@ -48,11 +48,12 @@ func init() {
 			ascii(st, r)
 			return Or(rng(r, 'a', 'z'), rng(r, 'A', 'Z'))
 		}
+		prevCount := e.intr["internal/bytealg.CountString"] // intrinsics.go: a sum of ite terms, case-split by concretize
 		e.intr["internal/bytealg.CountString"] = func(e *Engine, st *State, cc *ssa.CallCommon, a []Value) Value {
 			sv := a[0].(StringVal)
 			c := asTerm(a[1])
 			n := 0
-			for i, b := range sv.Bytes {
+			for _, b := range sv.Bytes {
 				eq := Eq(b, c)
 				if eq.IsFalse() {
 					continue
@@ -60,7 +61,7 @@ func init() {
 				if !eq.IsTrue() {
 					can, cannot := e.feasible(st, eq)
 					if can && cannot {
-						unsupported("bytealg.CountString: whether byte %d equals the needle is not decided by the path condition", i)
+						return prevCount(e, st, cc, a)
 					}
 					if !can {
 						continue
